@@ -21,6 +21,7 @@ import (
 	"strings"
 	"testing"
 
+	"github.com/rhysd/actionlint/verifshim/vexec"
 	"github.com/rhysd/actionlint/verifshim/vsched"
 )
 
@@ -51,7 +52,11 @@ var c02Collision = map[string]string{
 	"credentials+container":        "on: push\njobs:\n  a:\n    runs-on: ubuntu-latest\n    container:\n      image: x\n      credentials:\n        username: u\n        password: plain\n    services:\n      s1:\n        image: y\n        credentials:\n          username: u\n          password: plain\n      s2:\n        image: z\n        credentials:\n          username: u\n          password: plain2\n    steps:\n      - run: echo\n",
 	"matrix-include-type-merge":    "on: push\njobs:\n  a:\n    runs-on: ubuntu-latest\n    strategy:\n      matrix:\n        include:\n          - ${{ env }}\n          - ${{ fromJSON('{\"a\":1,\"b\":true,\"c\":\"x\",\"d\":null}') }}\n          - ${{ vars }}\n          - ${{ fromJSON('{\"a\":\"s\",\"e\":[1],\"f\":{\"g\":1}}') }}\n          - a: 1.5\n            h: {i: j}\n    steps:\n      - run: echo ${{ matrix.zz.yy }} ${{ matrix.a.b }} ${{ matrix.e.f }} ${{ matrix.f.g.h }} ${{ matrix.h.i.j }} ${{ toJSON(matrix) == 1 }}\n",
 	"fromjson-case-colliding-keys": "on: push\njobs:\n  a:\n    runs-on: ubuntu-latest\n    steps:\n      - run: |\n          echo ${{ fromJSON('{\"Cfg\": 1, \"cfg\": true, \"CFG\": \"s\"}').cfg.x }} ${{ fromJSON('{\"A\": {\"p\": 1}, \"a\": [1], \"á\": null, \"a\": {\"q\": true}}').a.r }} ${{ fromJSON('[{\"K\": 1, \"k\": \"s\", \"k\": [true]}]')[0].k.z }}\n",
-	"workflow-call-self":           "on:\n  workflow_call:\n    inputs:\n      a:\n        type: string\n      b:\n        type: number\n        required: true\n    secrets:\n      s:\n        required: true\n    outputs:\n      o1:\n        value: ${{ jobs.a.outputs.nope }}\n      o2:\n        value: ${{ jobs.nope.outputs.x }}\njobs:\n  a:\n    runs-on: ubuntu-latest\n    outputs:\n      x: y\n    steps:\n      - run: echo ${{ inputs.zzz }} ${{ secrets.qqq }}\n",
+	// a line break ESCAPED in a double-quoted scalar: the position of a diagnostic inside it is computed
+	// as if the break were in the source, and lands on the position of the next entry's diagnostic
+	"escaped-line-break-tie":      "on: push\njobs:\n  t:\n    runs-on: ubuntu-latest\n    env:\n      A: \"${{\\nfoo }}\"\n      B: ${{ bar }}\n    steps:\n      - run: echo\n",
+	"escaped-line-break-tie-with": "on: push\njobs:\n  t:\n    runs-on: ubuntu-latest\n    steps:\n      - uses: actions/checkout@v4\n        with:\n          ref: \"${{\\nfoo }}\"\n          key: ${{ bar }}\n",
+	"workflow-call-self":          "on:\n  workflow_call:\n    inputs:\n      a:\n        type: string\n      b:\n        type: number\n        required: true\n    secrets:\n      s:\n        required: true\n    outputs:\n      o1:\n        value: ${{ jobs.a.outputs.nope }}\n      o2:\n        value: ${{ jobs.nope.outputs.x }}\njobs:\n  a:\n    runs-on: ubuntu-latest\n    outputs:\n      x: y\n    steps:\n      - run: echo ${{ inputs.zzz }} ${{ secrets.qqq }}\n",
 }
 
 // project-based collision inputs (paths relative to the tree root of C10's layout)
@@ -78,7 +83,12 @@ var c02Tree = map[string]string{
 	"p/.github/workflows/callee.yml":                 "on:\n  workflow_call:\n    inputs:\n      zeta:\n        type: string\n        required: true\n      alpha:\n        type: string\n        required: True\n    secrets:\n      zs:\n        required: TRUE\n      as:\n        required: true\njobs:\n  j:\n    runs-on: ubuntu-latest\n    steps:\n      - run: echo\n",
 	"p/.github/workflows/two-jobs-broken-action.yml": "on: push\njobs:\n  zjob:\n    runs-on: ubuntu-latest\n    steps:\n      - uses: ./.github/actions/broken\n  ajob:\n    runs-on: ubuntu-latest\n    steps:\n      - uses: ./.github/actions/broken\n  mjob:\n    uses: ./.github/workflows/missing.yml\n  njob:\n    uses: ./.github/workflows/missing.yml\n",
 	"p/.github/workflows/missing-required.yml":       "on: push\njobs:\n  a:\n    runs-on: ubuntu-latest\n    steps:\n      - uses: ./.github/actions/req\n      - run: echo ${{ vars.NOPE }}\n  c:\n    uses: ./.github/workflows/callee.yml\n  d:\n    uses: ./.github/workflows/callee.yml\n    with:\n      bogus1: 1\n      bogus2: 2\n    secrets:\n      bogus3: x\n      bogus4: y\n",
-	"p/.github/workflows/second.yml":                 "on: push\njobs:\n  a:\n    runs-on: ubuntu-latest\n    steps:\n      - uses: ./.github/actions/broken\n      - uses: ./.github/actions/req\n  c:\n    uses: ./.github/workflows/missing.yml\n",
+	// run: steps for the tool integrations; in the scenarios that lint them every tool process fails
+	// (exit status 2, no output): WHICH failure the fatal error names must not depend on the schedule
+	"p/.github/workflows/tools-a.yml": "on: push\njobs:\n  a:\n    runs-on: ubuntu-latest\n    steps:\n      - run: echo a\n      - run: x = 1\n        shell: python\n      - run: echo b\n        shell: sh\n",
+	"p/.github/workflows/tools-b.yml": "on: push\njobs:\n  b:\n    runs-on: ubuntu-latest\n    steps:\n      - run: echo c\n",
+	"p/.github/workflows/tools-c.yml": "on: push\njobs:\n  c:\n    runs-on: ubuntu-latest\n    steps:\n      - run: echo d\n      - run: echo e\n",
+	"p/.github/workflows/second.yml":  "on: push\njobs:\n  a:\n    runs-on: ubuntu-latest\n    steps:\n      - uses: ./.github/actions/broken\n      - uses: ./.github/actions/req\n  c:\n    uses: ./.github/workflows/missing.yml\n",
 }
 
 type c02Input struct {
@@ -136,6 +146,31 @@ func c02FirstDiff(a, b string) string {
 		}
 	}
 	return fmt.Sprintf("outputs have %d vs %d lines", len(la), len(lb))
+}
+
+var c02HeaderPosRe = regexp.MustCompile(`^([^:\s]+:\d+:\d+):`)
+
+// c02TieSwap reports whether two outputs hold the same lines and first differ at two header lines
+// that carry the same file:line:column (two diagnostics the position order cannot tell apart,
+// printed in the other order).
+func c02TieSwap(a, b string) bool {
+	la, lb := strings.Split(a, "\n"), strings.Split(b, "\n")
+	if len(la) != len(lb) {
+		return false
+	}
+	sa, sb := append([]string{}, la...), append([]string{}, lb...)
+	sort.Strings(sa)
+	sort.Strings(sb)
+	if strings.Join(sa, "\n") != strings.Join(sb, "\n") {
+		return false
+	}
+	for i := range la {
+		if la[i] != lb[i] {
+			ma, mb := c02HeaderPosRe.FindStringSubmatch(la[i]), c02HeaderPosRe.FindStringSubmatch(lb[i])
+			return ma != nil && mb != nil && ma[1] == mb[1]
+		}
+	}
+	return false
 }
 
 func TestVerifC02(t *testing.T) {
@@ -240,7 +275,11 @@ func TestVerifC02(t *testing.T) {
 				x, obs := vsched.Replay(cfg, replay.Choices, func(x *vsched.Exec) string { return c02Observe(in, root) })
 				fmt.Printf("replay %d: deviations=%v equal=%v\n%s\n", k, x.Deviations(), obs == ident, c02FirstDiff(ident, obs))
 				if obs != ident {
-					r.Violation("map-order:"+siteName(x.Deviations()[0][0]), c02FirstDiff(ident, obs), map[string]any{"input": in.Name, "choices": replay.Choices})
+					key := "map-order:" + siteName(x.Deviations()[0][0])
+					if c02TieSwap(ident, obs) {
+						key = "map-order:equal-position-tie:" + siteExpr(x.Deviations()[0][0])
+					}
+					r.Violation(key, c02FirstDiff(ident, obs), map[string]any{"input": in.Name, "choices": replay.Choices})
 				}
 			}
 			r.Class("replay", true)
@@ -291,6 +330,11 @@ func TestVerifC02(t *testing.T) {
 			}
 			badPrefix[fmt.Sprint(d)] = true
 			key := "map-order:" + names[cul]
+			if c02TieSwap(ident, obs) {
+				// two diagnostics of one rule at ONE position, found in map order: the final (stable)
+				// sort by position keeps the order of arrival
+				key = "map-order:equal-position-tie:" + siteExpr(d[cul][0])
+			}
 			return key + "\x00" + fmt.Sprintf("input %s: output depends on the iteration order of %s at %s (deviating sites %v): %s", in.Name, siteExpr(d[cul][0]), names[cul], names, c02FirstDiff(ident, obs))
 		}, map[string]any{"input": in.Name})
 		for s, n := range res.MapSites {
@@ -322,9 +366,9 @@ func TestVerifC02(t *testing.T) {
 	r.Extra["map_sites_reached_this_shard"] = len(st)
 
 	// ---- (2) interleavings of multi-file runs
-	files := []string{"two-jobs-broken-action.yml", "missing-required.yml", "second.yml", "callee.yml", "../../../q/.github/workflows/other.yml", "../../../top.yml", "does-not-exist-1.yml", "does-not-exist-2.yml"}
+	files := []string{"two-jobs-broken-action.yml", "missing-required.yml", "second.yml", "callee.yml", "../../../q/.github/workflows/other.yml", "../../../top.yml", "does-not-exist-1.yml", "does-not-exist-2.yml", "tools-a.yml", "tools-b.yml", "tools-c.yml"}
 	var idx int64
-	for _, order := range [][]int{{0, 2}, {2, 0}, {1, 2, 3}, {3, 1}, {2, 1, 0}, {1, 4}, {4, 1}, {5, 1, 4}, {5, 4}, {6, 7}, {7, 2, 6}} { // 6, 7: files that cannot be read (which one does the fatal error name?)
+	for _, order := range [][]int{{0, 2}, {2, 0}, {1, 2, 3}, {3, 1}, {2, 1, 0}, {1, 4}, {4, 1}, {5, 1, 4}, {5, 4}, {6, 7}, {7, 2, 6}, {8}, {10, 9}} { // 8..10: files with run: steps, linted with both tool integrations on, every tool process failing // 6, 7: files that cannot be read (which one does the fatal error name?)
 		identByCPUs := map[int]string{}
 		for _, cpus := range []int{1, 2} {
 			idx++
@@ -341,9 +385,22 @@ func TestVerifC02(t *testing.T) {
 			if r.Expired() {
 				break
 			}
+			withTools := false
+			for _, k := range order {
+				withTools = withTools || k >= 8
+			}
 			body := func(x *vsched.Exec) string {
 				var out bytes.Buffer
-				l, err := NewLinter(&out, &LinterOptions{WorkingDir: root})
+				opts := &LinterOptions{WorkingDir: root}
+				if withTools {
+					opts.Shellcheck, opts.Pyflakes = "shellcheck", "pyflakes"
+					vexec.LookPathFn = func(file string) (string, error) { return "/fake/" + file, nil }
+					vexec.Handler = func(name string, args []string) vexec.Outcome {
+						return vexec.Outcome{ExitCode: 2, Stderr: []byte("boom")}
+					}
+					defer func() { vexec.LookPathFn, vexec.Handler = nil, nil }()
+				}
+				l, err := NewLinter(&out, opts)
 				if err != nil {
 					panic(err)
 				}
